@@ -8,11 +8,32 @@ from spec.grammar import Named, Pos, Cmd, Cmds, Level, Group
 from .tok import Decl
 
 
+def _names(level, s, l, c):
+    from spec import grammar as G
+    for f in level.fields:
+        if isinstance(f, G.Named):
+            s.extend(f.shorts); l.extend(f.longs)
+        elif isinstance(f, G.Group):
+            for m in f.members:
+                s.extend(m.shorts); l.extend(m.longs)
+        elif isinstance(f, G.Cmds):
+            for cm in f.cmds:
+                c.extend(cm.names)
+                _names(cm.level, s, l, c)
+
+
 class Gram:
-    def __init__(self, builder, level, short_flags="", short_args="", env_names=(), note=""):
+    def __init__(self, builder, level, short_flags="", short_args="", env_names=(), note="", names=None):
         self.builder = "vharness::grammars::" + builder
         self.name = builder
         self.level = level
+        self.all_shorts, self.all_longs, self.cmd_names = [], [], []
+        if level is not None:
+            _names(level, self.all_shorts, self.all_longs, self.cmd_names)
+        if names is not None:
+            self.all_shorts += [ord(c) for c in names[0]]
+            self.all_longs += list(names[1])
+            self.cmd_names += list(names[2])
         # help/version shorts are always declared flags
         self.decl = Decl(short_flags + "hV", short_args)
         self.env_names = list(env_names)
@@ -130,3 +151,16 @@ add(Gram("o2", Level([Group(_ab, "many"), Named("switch", "s", ["sw"])]), short_
          note="repeated group of two required arguments"))
 
 C06_GRAMMARS = ["v1", "v2", "v3", "o1", "o2", "g1", "g2", "p1"]
+
+
+# grammars without a full reference semantics in spec/grammar.py (dedicated oracles in C07/C19/C02);
+# only their declared names are listed
+add(Gram("a1", None, short_flags="as", short_args="bxy", names=("abxys", ["alpha", "beta", "ex", "why", "sw"], []), note="bare choice"))
+add(Gram("a2", None, short_flags="as", short_args="bxy", names=("abxys", ["alpha", "beta", "ex", "why", "sw"], []), note="optional choice"))
+add(Gram("a3", None, short_flags="as", short_args="bxy", names=("abxys", ["alpha", "beta", "ex", "why", "sw"], []), note="repeated choice"))
+add(Gram("j1", Level([
+    Named("switch", "a", ["alpha"]),
+    Named("arg", "b", ["beta"], arity="opt", adjacent=True),
+]), short_flags="a", short_args="b", note="adjacent-restricted argument"))
+add(Gram("k1", None, short_flags="ps", names=("ps", ["point", "sw"], []), note="adjacent multi-value option, repeated"))
+add(Gram("k2", None, short_flags="rs", short_args="wh", names=("rswh", ["rect", "sw", "width", "height"], []), note="adjacent option-struct (help is --help only)"))
